@@ -159,7 +159,7 @@ def _ipow(base, n, inv=None):
 
 class ExpGens:
     """exp(x + i y) with x = sum n_i g_i, y = sum m_j th_j (integer n, m in [-rng, rng]) over
-    declared real bases g_i (symbol e_i = exp(g_i) > 0, e_i < 1 iff g_i < 0) and phase bases
+    declared real bases g_i (symbol e_i = exp(g_i) > 0, e_i < 1 if g_i < 0 is known) and phase bases
     th_j (symbols c_j, s_j with c^2 + s^2 = 1) becomes prod e_i^n_i prod (c_j + i s_j)^m_j.
     Anything else falls back to an uninterpreted exp (congruence only)."""
 
@@ -169,19 +169,31 @@ class ExpGens:
         self.rb = []      # (z3 g, z3 e)
         self.ib = []      # (z3 th, z3 c, z3 s)
         self.memo = {}
+        # input bounds declared so far (linear facts such as T >= 1/4): the only side conditions the
+        # decomposition queries need (definedness of divisions); generator axioms / path condition are
+        # deliberately left out (a decomposition valid under fewer assumptions is valid on the path)
+        self.base_side = list(inp.assumptions)
         self.fallbacks = 0
         self.decomposed = 0
 
     # declarations (mode-agnostic: return symbols in sym mode, numbers otherwise)
-    def decay(self, name, g):
-        """returns exp(g) for a real g"""
+    def decay(self, name, g, sign=None):
+        """returns exp(g) for a real g; sign = -1 / +1 if the harness knows g < 0 / g > 0 from its
+        input bounds (then e < 1 / e > 1 is added; checked by the solver once)"""
         if self.inp.mode != "sym":
             return m_exp(self.inp, g)
         g = S.of(g)
         gz = zr(g.re)
         e = z3.Real("E_" + name)
-        self.inp.assumptions.append(z3.And(e > 0, z3.Implies(gz < 0, e < 1), z3.Implies(gz > 0, e > 1),
-                                           z3.Implies(gz == 0, e == 1)))
+        if sign is not None:
+            s = z3.Solver()
+            s.set("timeout", 20000)
+            s.add(*self.base_side)
+            s.add(gz >= 0 if sign < 0 else gz <= 0)
+            if s.check() != z3.unsat:
+                raise sym.Inconclusive("sign of generator argument %s not implied by the input bounds" % name)
+        ax = e > 0 if sign is None else (z3.And(e > 0, e < 1) if sign < 0 else e > 1)
+        self.inp.assumptions.append(ax)
         self.rb.append((gz, e))
         return S(e)
 
@@ -192,7 +204,7 @@ class ExpGens:
         th = S.of(th)
         tz = zr(th.re)
         c, s = z3.Real("C_" + name), z3.Real("Sn_" + name)
-        self.inp.assumptions.append(z3.And(c * c + s * s == 1, z3.Implies(tz == 0, z3.And(c == 1, s == 0))))
+        self.inp.assumptions.append(c * c + s * s == 1)
         self.ib.append((tz, c, s))
         return S(c), S(s)
 
@@ -205,12 +217,6 @@ class ExpGens:
         _HANDLER[0] = self._old
 
     # ------------------------------------------------------------------
-    def _side(self):
-        side = list(self.inp.assumptions)
-        if sym.CTX is not None:
-            side += list(sym.CTX.pc)
-        return side
-
     def _decomp(self, expr, bases):
         if isinstance(expr, Fraction):
             return [0] * len(bases) if expr == 0 else None
@@ -244,7 +250,7 @@ class ExpGens:
             comb = sum((n * b for n, b in zip(c, bases)), z3.RealVal(0))
             s = z3.Solver()
             s.set("timeout", 10000)
-            s.add(*self._side())
+            s.add(*self.base_side)
             s.add(expr != comb)
             if s.check() == z3.unsat:        # the decomposition is valid for ALL values
                 out = list(c)
